@@ -391,12 +391,15 @@ def digests(depth=3):
 
             def put(self, p):
                 seen.append((env.now, self.element_id, p.packet_id))
-        hub = _Hub(env)
-        sts = [St("st%d" % i) for i in range(3)]
-        for i, st in enumerate(sts):
-            hub.add_endpoint(st, _Wire(env, lambda: 1) if i != 1 else None)
-        hub.put(_P(0, 1, 7, src="st0"))
-        env.run(until=5)
+        try:
+            hub = _Hub(env)
+            sts = [St("st%d" % i) for i in range(3)]
+            for i, st in enumerate(sts):
+                hub.add_endpoint(st, _Wire(env, lambda: 1) if i != 1 else None)
+            hub.put(_P(0, 1, 7, src="st0"))
+            env.run(until=5)
+        except Exception as e:  # noqa - a program that behaves differently the second time is exactly what is looked for
+            seen.append(("raised", type(e).__name__))
         h.update(repr(seen).encode())
     # hash-ordered containers in scope
     from onl.topo import FatTree
